@@ -901,6 +901,17 @@ func (p *Printer) cmdSubst(cs *CmdSubst) {
 		} else {
 			p.wantSpace = spaceNotRequired
 		}
+		if !p.minify && len(cs.Stmts) > 0 && closingNeedsNewline(cs.Stmts, cs.Last) {
+			// The closing parenthesis will be on a line of its own
+			// because of a trailing comment or a here-document, even
+			// if it was not in the source, which can only be
+			//     `stmt # comment`
+			//     `stmt <<EOF ... EOF`
+			// Start on a new line right away, like nestedStmts does
+			// for a closing token on its own line, so that formatting
+			// the result again gives the same.
+			p.wantNewline = true
+		}
 		p.nestedStmts(cs.Stmts, cs.Last, cs.Right)
 		p.closingParen(cs.Stmts, cs.Last, cs.Left, cs.Right)
 	}
@@ -1673,6 +1684,34 @@ func (e *extraIndenter) WriteString(s string) (int, error) {
 		e.WriteByte(s[i])
 	}
 	return len(s), nil
+}
+
+// closingNeedsNewline reports whether the statements end with a comment, or
+// the last one holds a here-document, either of which must be followed by a
+// newline before a closing parenthesis.
+func closingNeedsNewline(stmts []*Stmt, last []Comment) bool {
+	if len(last) > 0 {
+		return true
+	}
+	s := stmts[len(stmts)-1]
+	if n := len(s.Comments); n > 0 && s.Comments[n-1].End().After(s.End()) {
+		return true
+	}
+	return stmtHasHeredoc(s)
+}
+
+// stmtHasHeredoc reports whether a statement, or a command of the pipeline or
+// list it holds, has a here-document.
+func stmtHasHeredoc(s *Stmt) bool {
+	for _, r := range s.Redirs {
+		if r.Op == Hdoc || r.Op == DashHdoc {
+			return true
+		}
+	}
+	if bin, ok := s.Cmd.(*BinaryCmd); ok {
+		return stmtHasHeredoc(bin.X) || stmtHasHeredoc(bin.Y)
+	}
+	return false
 }
 
 func startsWithLparen(node Node) bool {
